@@ -218,7 +218,8 @@ class Driven(object):
                 if first and data[:4] == contact.MAGIC_HEAD:
                     pkt = contact.Head(data)
                     name = 'CONTACT'
-                    reason = None
+                    # for the contact header the third field is the CAN_TLS offer on the wire
+                    reason = bool(int(pkt.payload.flags) & 0x01)
                 else:
                     pkt = messages.MessageHead(data)
                     cls = pkt.guess_payload_class(b'')
@@ -276,6 +277,7 @@ def _observe(drv):
         sessinit_clear=any(name == 'SESS_INIT' and chan == 'clear' for (chan, name, _r) in emitted),
         sessinit_tls=any(name == 'SESS_INIT' and chan == 'tls' for (chan, name, _r) in emitted),
         contact_sent=any(name == 'CONTACT' for (_c, name, _r) in emitted),
+        contact_offers_tls=[flag for (_c, name, flag) in emitted if name == 'CONTACT'],
         term_reasons=terms,
         clear_after_tls=_clear_after_tls(drv.log),
         params=params,
